@@ -152,6 +152,18 @@ class Journaler:
         )
         self.conn.commit()
 
+    def store_seq_num(self, session: FIXSession):
+        """Stores current session seq nums in journal (no messages deleted).
+
+        Args:
+            session: target session
+        """
+        self.cursor.execute(
+            "UPDATE session SET inboundSeqNo=?, outboundSeqNo=?  WHERE sessionId = ?",
+            (session.next_num_in - 1, session.next_num_out - 1, session.key),
+        )
+        self.conn.commit()
+
     def persist_msg(
         self,
         msg: bytes,
